@@ -754,7 +754,7 @@ func TestProp(t *testing.T) {
 		})
 
 	run.Check("tmpl", 40000, 240000,
-		"a program = up to 4 assignments, then a template (backtick or 0x1E) of 0..8 parts: literal segments over the rich alphabet with drawn spellings, and holes {…} / {% … %} with drawn padding holding 1..4 statements of the restricted hole language (int and string literals, + - * on ints, string concatenation, variables, assignments, if / else if / else blocks that assign, counted while loops of 0..3 rounds, function definitions (0..3 parameters, int body) and calls of them in later expressions and holes, empty statements, arrays of ints, parentheses, nested templates up to depth 4 (6 thorough)), in one of 5 surroundings (alone, between two concatenated strings, as element of an indexed array, assigned and read back, after other statements); expected string and expected variables come from the package's own AST evaluator; holes whose value the documentation leaves open (a value followed by a block as last statement, a function definition as last statement) are not generated; non-trivial = at least 2 holes or nesting depth >= 2 or an assignment / if block executed inside a hole; distinct by program text",
+		"a program = up to 4 assignments, then a template (backtick or 0x1E) of 0..8 parts: literal segments over the rich alphabet with drawn spellings, and holes {…} / {% … %} with drawn padding holding 1..4 statements of the restricted hole language (int and string literals, + - * on ints, string concatenation, variables, assignments, if / else if / else blocks that assign, counted while loops of 0..3 rounds, function definitions (0..3 parameters, int body) and calls of them in later expressions and holes, empty statements, arrays of ints (references: in-place push through any name of the array object), parentheses, nested templates up to depth 4 (6 thorough)), in one of 5 surroundings (alone, between two concatenated strings, as element of an indexed array, assigned and read back, after other statements); expected string and expected variables come from the package's own AST evaluator; holes whose value the documentation leaves open (a value followed by a block as last statement, a function definition as last statement) are not generated; non-trivial = at least 2 holes or nesting depth >= 2 or an assignment / if block executed inside a hole; distinct by program text",
 		func(t *rapid.T, s *rt.Section) {
 			c := drawTCase(t, thorough, s)
 			s.Eval()
